@@ -1492,7 +1492,8 @@ class TrigInfo:
             # Store HASS Context for this Task
             Function.store_hass_context(hass_context)
 
-            if task_unique and task_unique_func:
+            # (the name can be any string, also an empty one)
+            if task_unique is not None and task_unique_func:
                 if kill_me and Function.unique_name_used(ast_ctx, task_unique):
                     #
                     # another run claimed the name between the trigger and the start of
